@@ -26,3 +26,5 @@ def run(prog, rep):
     _rio8.run_set_extent(prog, rep)
     from ..rules import r_mbt as _mbt8
     _mbt8.run_replace_dups(prog, rep)
+    from ..rules import r_codec as _rc8
+    _rc8.run_classify(prog, rep)
